@@ -16,13 +16,14 @@ from mc.driver import MachineDriver, r6, simple_state  # noqa: E402
 from mc.explore import bfs  # noqa: E402
 
 EPS = 1e-6
-DUR = {"sh1": [0.25, 0.5, 0.25], "sh2": [0.125, 0.125, 0.125]}
+DUR = {"sh1": [0.25, 0.5, 0.25], "sh2": [0.125, 0.125, 0.125], "sh3": [0.25, 0.25, -1]}      # -1: the show holds on that step
 PLAYS = [
     ("sh1", dict(speed=1, loops=0, start_step=1, sync_ms=0, priority=0)),
     ("sh1", dict(speed=2, loops=1, start_step=1, sync_ms=0, priority=0)),
     ("sh1", dict(speed=1, loops=-1, start_step=2, sync_ms=0, priority=0)),
     ("sh1", dict(speed=1, loops=0, start_step=-1, sync_ms=500, priority=0)),
     ("sh2", dict(speed=1, loops=1, start_step=1, sync_ms=0, priority=1)),
+    ("sh3", dict(speed=1, loops=0, start_step=1, sync_ms=0, priority=0)),
 ]
 
 
@@ -45,6 +46,7 @@ class RefShow:
         self.stopped = False
         self.expected = []          # (scheduled time, what) produced by run_due
         self.played = False
+        self.holding = False
 
     def _run_step(self, extra=None):
         """Execute the step that is due at self.next_time."""
@@ -72,6 +74,11 @@ class RefShow:
         for e in ev:
             self.expected.append((self.next_time, "%s_%s" % (self.name, e)))
         self.next_index += 1
+        if self.d[idx] < 0:
+            # a step of duration -1: the show holds here until it is stopped (no further step is scheduled)
+            self.running = False
+            self.holding = True
+            return
         self.next_time += self.d[idx] / self.speed
         self.running = True
 
@@ -91,7 +98,7 @@ class RefShow:
 
     def key(self, now):
         return (self.name, self.next_index, r6(self.next_time - now) if self.running else None, self.loops, self.speed,
-                self.running, self.stopped, self.played)
+                self.running, self.stopped, self.played, self.holding)
 
 
 class ShowDriver(MachineDriver):
@@ -106,7 +113,7 @@ class ShowDriver(MachineDriver):
         self.evlog = []
         self.seen = 0
         names = []
-        for sh in ("sh1", "sh2"):
+        for sh in ("sh1", "sh2", "sh3"):
             names += ["%s_s%d" % (sh, i) for i in (1, 2, 3)] + ["%s_%s" % (sh, e) for e in
                                                                 ("played", "looped", "completed", "stopped")]
         for n in names:
@@ -123,7 +130,9 @@ class ShowDriver(MachineDriver):
                 if not any(r.name == name and not r.stopped for r, _ in self.shows):
                     out.append(["play", i])
         for i, (r, _) in enumerate(self.shows):
-            if not r.stopped:
+            if not r.stopped and r.holding:
+                out += [["stop", i]]        # what resume / advance do to a show holding on its last step is not judged
+            elif not r.stopped:
                 out += [["stop", i], ["pause", i], ["speed2", i]]
                 if r.played:        # what these do to a show still waiting for its sync start is not judged
                     out += [["resume", i], ["advance", i], ["step_back", i]]
